@@ -29,6 +29,7 @@ package deprecatedstate
 //@ ghost func be64of(b []byte) uint64
 //@ ghost func bytesHasPrefix(s []byte, p []byte) bool
 //@ ghost var itValid bool
+//@ ghost var itPast bool
 //@ ghost var itAt uint64
 //@ ghost var itPrefixLen int
 //@ ghost var itPrefix []byte
@@ -40,21 +41,31 @@ package deprecatedstate
 //@   ensures result == bytesHasPrefix(s, prefix)
 //@ extern func errors.Join
 //@   ensures (result == nil) <==> (forall i int :: 0 <= i && i < len(errs) ==> errs[i] == nil)
+// The log model holds for an iterator that cannot leave the prefix: only an upper-bounded one.
 //@ extern func github.com/NethermindEth/juno/db.IndexedBatch.NewIterator
-//@   assigns itValid, itAt, itPrefixLen, itPrefix
-//@   ensures result1 == nil ==> result0 != nil && !itValid && itPrefixLen == len(prefix) && itPrefix == prefix
+//@   requires scoped_to_prefix: withUpperBound
+//@   assigns itValid, itPast, itAt, itPrefixLen, itPrefix
+//@   ensures result1 == nil ==> result0 != nil && !itValid && !itPast && itPrefixLen == len(prefix) && itPrefix == prefix
 //@ extern func github.com/NethermindEth/juno/db.Iterator.Close
 //@ extern func github.com/NethermindEth/juno/db.Iterator.Valid
 //@   ensures result == itValid
 //@ extern func github.com/NethermindEth/juno/db.Iterator.Seek
 //@   requires len(key) == itPrefixLen + 8
-//@   assigns itValid, itAt
-//@   ensures result == itValid
+//@   assigns itValid, itPast, itAt
+//@   ensures result == itValid && itPast == !result
 //@   ensures found: result ==> histAt(itAt) && itAt >= be64of(key[itPrefixLen:]) && (forall j uint64 :: histAt(j) && j >= be64of(key[itPrefixLen:]) ==> j >= itAt)
 //@   ensures none: !result ==> (forall j uint64 :: histAt(j) ==> j < be64of(key[itPrefixLen:]))
+//@ extern func github.com/NethermindEth/juno/db.Iterator.Prev
+//@   assigns itValid, itPast, itAt
+//@   ensures result == itValid && !itPast
+//@   ensures back: old(itValid) && result ==> histAt(itAt) && itAt < old(itAt) && (forall j uint64 :: histAt(j) && j < old(itAt) ==> j <= itAt)
+//@   ensures first: old(itValid) && !result ==> (forall j uint64 :: histAt(j) ==> j >= old(itAt))
+//@   ensures last: old(itPast) && result ==> histAt(itAt) && (forall j uint64 :: histAt(j) ==> j <= itAt)
+//@   ensures empty: old(itPast) && !result ==> (forall j uint64 :: !histAt(j))
+//@   ensures unpositioned: !old(itValid) && !old(itPast) ==> !result
 //@ extern func github.com/NethermindEth/juno/db.Iterator.Next
-//@   assigns itValid, itAt
-//@   ensures result == itValid
+//@   assigns itValid, itPast, itAt
+//@   ensures result == itValid && itPast == (old(itValid) && !result)
 //@   ensures forward: old(itValid) && result ==> histAt(itAt) && itAt > old(itAt) && (forall j uint64 :: histAt(j) && j > old(itAt) ==> j >= itAt)
 //@   ensures last: old(itValid) && !result ==> (forall j uint64 :: histAt(j) ==> j <= old(itAt))
 //@   ensures stays_invalid: !old(itValid) ==> !result
@@ -69,7 +80,7 @@ package deprecatedstate
 //@   props C03
 //@   arith int
 //@   requires s != nil && s.txn != nil
-//@   assigns itValid, itAt, itPrefixLen, itPrefix
+//@   assigns itValid, itPast, itAt, itPrefixLen, itPrefix
 //@   loop 1: invariant opened: itPrefixLen == len(key) && itPrefix == key
 //@   loop 1: invariant at: itValid ==> histAt(itAt) && itAt >= height && (forall j uint64 :: histAt(j) && j > height ==> j >= itAt)
 //@   loop 1: invariant exhausted: !itValid ==> (forall j uint64 :: histAt(j) ==> j <= height)
@@ -82,28 +93,55 @@ package deprecatedstate
 // failure: it means nothing was logged after that block, e.g. because the block wrote zero to a
 // never-written slot. GetReverseStateDiff must therefore never fail with it.
 //@ ghost func isCheckHead(err error) bool
+//@ ghost func isNotFound(err error) bool
 //@ extern func errors.Is
 //@   ensures target == ErrCheckHeadState ==> result == isCheckHead(err)
+//@   ensures target == db.ErrKeyNotFound ==> result == isNotFound(err)
 //@   ensures err == nil ==> !result
+// storageAsOf / nonceAsOf / classHashAsOf are the values as of a block, head* the head values. The
+// three look-ups are trusted to return the former (key construction and felt decoding around the
+// valueAt kernel above), and "ask the head" means that the head value is the value as of that block.
+// written_only_if_deployed is an assumed invariant of the stored state: only deployed contracts
+// are written to.
+//@ ghost func storageAsOf(addr felt.Felt, key felt.Felt, n uint64) felt.Felt
+//@ ghost func nonceAsOf(addr felt.Felt, n uint64) felt.Felt
+//@ ghost func classHashAsOf(addr felt.Felt, n uint64) felt.Felt
+//@ ghost func headStorage(addr felt.Felt, key felt.Felt) felt.Felt
+//@ ghost func headNonce(addr felt.Felt) felt.Felt
+//@ ghost func headClassHash(addr felt.Felt) felt.Felt
+//@ ghost func feltIsZero(f felt.Felt) bool
+//@ extern func github.com/NethermindEth/juno/core/felt.(*Felt).IsZero
+//@   requires z != nil
+//@   ensures result == feltIsZero(*z)
 //@ func (*State).ContractStorageAt
 //@   trusted
 //@   logged
+//@   ensures value: result1 == nil ==> result0 == storageAsOf(*contractAddress, *storageLocation, height)
+//@   ensures ask_head: isCheckHead(result1) ==> storageAsOf(*contractAddress, *storageLocation, height) == headStorage(*contractAddress, *storageLocation)
+//@   ensures written_only_if_deployed: !feltIsZero(storageAsOf(*contractAddress, *storageLocation, height)) ==> contractKnown(*contractAddress) && deployedHeight(*contractAddress) <= height
 //@ func (*State).ContractNonceAt
 //@   trusted
 //@   logged
+//@   ensures value: result1 == nil ==> result0 == nonceAsOf(*contractAddress, height)
+//@   ensures ask_head: isCheckHead(result1) ==> nonceAsOf(*contractAddress, height) == headNonce(*contractAddress)
 //@ func (*State).ContractClassHashAt
 //@   trusted
 //@   logged
+//@   ensures value: result1 == nil ==> result0 == classHashAsOf(*contractAddress, height)
+//@   ensures ask_head: isCheckHead(result1) ==> classHashAsOf(*contractAddress, height) == headClassHash(*contractAddress)
 // The head accessors never answer "ask the head".
 //@ func (*State).ContractStorage
 //@   trusted
 //@   ensures result1 != nil ==> !isCheckHead(result1)
+//@   ensures result1 == nil ==> result0 == headStorage(*addr, *key)
 //@ func (*State).ContractNonce
 //@   trusted
 //@   ensures result1 != nil ==> !isCheckHead(result1)
+//@   ensures result1 == nil ==> result0 == headNonce(*addr)
 //@ func (*State).ContractClassHash
 //@   trusted
 //@   ensures result1 != nil ==> !isCheckHead(result1)
+//@   ensures result1 == nil ==> result0 == headClassHash(*addr)
 //@ func (*State).GetReverseStateDiff
 //@   props C04
 //@   arith int
@@ -117,3 +155,68 @@ package deprecatedstate
 //@   loop 4: invariant genesis: blockNumber == 0 ==> calls_ContractStorageAt == old(calls_ContractStorageAt) && calls_ContractNonceAt == old(calls_ContractNonceAt) && calls_ContractClassHashAt == old(calls_ContractClassHashAt)
 //@   ensures never_ask_head: result1 != nil ==> !isCheckHead(result1)
 //@   ensures genesis: blockNumber == 0 ==> result1 == nil && calls_ContractStorageAt == old(calls_ContractStorageAt) && calls_ContractNonceAt == old(calls_ContractNonceAt) && calls_ContractClassHashAt == old(calls_ContractClassHashAt)
+
+// ---- the historical view, legacy back-end (C03) ------------------------------------------------
+//@ ghost func deployedHeight(addr felt.Felt) uint64
+//@ ghost func contractKnown(addr felt.Felt) bool
+//@ extern func github.com/NethermindEth/juno/core.GetContractDeploymentHeight
+//@   ensures known: result1 == nil ==> contractKnown(*addr) && result0 == deployedHeight(*addr)
+//@   ensures unknown: result1 != nil && isNotFound(result1) ==> !contractKnown(*addr)
+//@ extern func fmt.Errorf
+//@   ensures result != nil
+//@ func (*State).ContractDeployedAt
+//@   props C03
+//@   arith int
+//@   requires s != nil && addr != nil
+//@   ensures exact: result1 == nil && contractKnown(*addr) ==> (result0 <==> deployedHeight(*addr) <= blockNumber)
+//@   ensures deployed: result1 == nil && result0 ==> contractKnown(*addr) && deployedHeight(*addr) <= blockNumber
+//@ func (*stateHistory).checkDeployed
+//@   props C03
+//@   arith int
+//@   requires s != nil && s.state != nil && addr != nil
+//@   ensures present: result == nil ==> contractKnown(*addr) && deployedHeight(*addr) <= s.blockNumber
+//@   ensures not_yet: contractKnown(*addr) && deployedHeight(*addr) > s.blockNumber ==> result != nil
+//@ func (*stateHistory).ContractStorage
+//@   props C03
+//@   arith int
+//@   requires s != nil && s.state != nil && addr != nil && key != nil
+//@   assigns calls_ContractStorageAt, arg_ContractStorageAt_contractAddress, arg_ContractStorageAt_storageLocation, arg_ContractStorageAt_height
+//@   ensures value: result1 == nil ==> result0 == storageAsOf(*addr, *key, s.blockNumber)
+//@   ensures existed: result1 == nil ==> contractKnown(*addr) && deployedHeight(*addr) <= s.blockNumber
+//@   ensures not_yet: contractKnown(*addr) && deployedHeight(*addr) > s.blockNumber ==> result1 != nil
+//@ func (*stateHistory).ContractNonce
+//@   props C03
+//@   arith int
+//@   requires s != nil && s.state != nil && addr != nil
+//@   assigns calls_ContractNonceAt, arg_ContractNonceAt_contractAddress, arg_ContractNonceAt_height
+//@   ensures value: result1 == nil ==> result0 == nonceAsOf(*addr, s.blockNumber)
+//@   ensures existed: result1 == nil ==> contractKnown(*addr) && deployedHeight(*addr) <= s.blockNumber
+//@   ensures not_yet: contractKnown(*addr) && deployedHeight(*addr) > s.blockNumber ==> result1 != nil
+//@ func (*stateHistory).ContractClassHash
+//@   props C03
+//@   arith int
+//@   requires s != nil && s.state != nil && addr != nil
+//@   assigns calls_ContractClassHashAt, arg_ContractClassHashAt_contractAddress, arg_ContractClassHashAt_height
+//@   ensures value: result1 == nil ==> result0 == classHashAsOf(*addr, s.blockNumber)
+//@   ensures existed: result1 == nil ==> contractKnown(*addr) && deployedHeight(*addr) <= s.blockNumber
+//@   ensures not_yet: contractKnown(*addr) && deployedHeight(*addr) > s.blockNumber ==> result1 != nil
+
+// The block that last wrote at or below upToBlock (0 when there is none): the same kernel as in
+// core/state, over the same log model; the head look-up asks for "at or below the largest block".
+//@ func (*State).lastUpdatedBlockNumber
+//@   props C03
+//@   arith int
+//@   requires s != nil && s.txn != nil
+//@   modifies *
+//@   assigns itValid, itPast, itAt, itPrefixLen, itPrefix
+//@   ensures latest: result1 == nil && (exists j uint64 :: histAt(j) && j <= upToBlock) ==> histAt(result0) && result0 <= upToBlock && (forall j uint64 :: histAt(j) && j <= upToBlock ==> j <= result0)
+//@   ensures none: result1 == nil && (forall j uint64 :: histAt(j) ==> j > upToBlock) ==> result0 == 0
+//@ extern func github.com/NethermindEth/juno/db.DeprecatedContractStorageHistoryKey
+//@ func (*State).ContractStorageLastUpdatedBlock
+//@   props C03
+//@   arith int
+//@   requires s != nil && s.txn != nil && addr != nil && key != nil
+//@   modifies *
+//@   assigns itValid, itPast, itAt, itPrefixLen, itPrefix
+//@   ensures latest: result1 == nil && (exists j uint64 :: histAt(j)) ==> histAt(result0) && (forall j uint64 :: histAt(j) ==> j <= result0)
+//@   ensures none: result1 == nil && (forall j uint64 :: !histAt(j)) ==> result0 == 0
